@@ -164,6 +164,16 @@ def gen_case(rng, stream: str) -> dict:
             pm = rng.sample(sorted(target), rng.randint(0, len(target)))
         case["call2"] = {"drop": sorted(drop), "target": t2, "force": rng.random() < 0.05, "prompt": pm,
                          "relink": rng.random() < 0.3, "fresh_odb": rng.random() < 0.5}
+        cand = [p for p in sorted(target) if case["contents"][target[p]] != ""]
+        if cand and rng.random() < 0.4:
+            # the user restores a file over a checked-out one: new inode, same size and mtime, uncached bytes;
+            # its old version stays in the cache, a hash state is attached, the next checkout is unforced
+            p = rng.choice(cand)
+            t2[p] = rng.choice([c for c in cached_pool if c != target[p]])
+            case["state"] = True
+            case["cache"] = sorted(set(case["cache"]) | {t2[p]})
+            case["call2"].update(user="replace_preserving:" + p, force=False, prompt=rng.choice(["none", "none", "no"]),
+                                 drop=[c for c in case["call2"]["drop"] if c not in (target[p], t2[p])])
     if stream == "rehistory":
         # call 1: forced checkout of a nested target; the user deletes a sub-directory tree / everything / one
         # file; call 2: forced checkout of the same or another nested target on the same workspace path
@@ -585,6 +595,21 @@ def run_case(ctx, case):
                 victims = [os.path.join(ws, n) for n in os.listdir(ws)]
             elif ev == "rm_subdirs":
                 victims = [os.path.join(ws, n) for n in os.listdir(ws) if os.path.isdir(os.path.join(ws, n)) and not os.path.islink(os.path.join(ws, n))]
+            elif ev.startswith("replace_preserving:"):
+                # timestamp-preserving restore: new inode, new (uncached) bytes of the SAME size, identical mtime
+                victims = []
+                vp = os.path.join(ws, *ev.split(":", 1)[1].split("/"))
+                if os.path.exists(vp):
+                    st_old = os.stat(vp)                 # followed: what the hash state recorded
+                    if st_old.st_size > 0:
+                        tmpn = vp + ".restore~"
+                        with open(tmpn, "wb") as f:
+                            f.write(b"#" * st_old.st_size)
+                        os.utime(tmpn, ns=(st_old.st_atime_ns, st_old.st_mtime_ns))
+                        os.replace(tmpn, vp)             # the old inode still existed: the new one differs
+                        st_new = os.stat(vp)
+                        assert (st_new.st_size, st_new.st_mtime_ns) == (st_old.st_size, st_old.st_mtime_ns) \
+                            and st_new.st_ino != st_old.st_ino
             else:                                        # "rm_file:<rel>"
                 victims = [os.path.join(ws, *ev.split(":", 1)[1].split("/"))]
             for v in victims:
@@ -619,7 +644,7 @@ def run_case(ctx, case):
     dangling = any(e["broken"] for e in ws0.values())
     for (before, after, cbefore, out, asked, tag, forced) in (
             (ws0, ws1, c0, out1, asked1, "call1", case["force"]),
-            (ws1b, ws2, c1b, out2, asked2, "call2" + (" (after objects were collected from the cache)" if hist else ""), case2["force"])):
+            (ws1b, ws2, c1b, out2, asked2, "call2" + (f" (history: objects {hist.get('drop')} collected from the cache, user event {hist.get('user')})" if hist else ""), case2["force"])):
         if out[0] == "exc":
             res["c05"].append((f"C05:unexpected-exception:{out[1].split(':')[0]}", f"checkout raised {out[1]} ({tag})"))
         if forced:
